@@ -201,6 +201,10 @@ def C04(ctx):
     record_and_validate(ctx, [("table_%d" % i, ["record", "table", "--byhash", "never", "--seed", ctx.seed * 1000 + 50 + i, "--segments", 25, "--len", 60])
                               for i in range(3 if ctx.quick else 16 * TH)], "TraceTable", "TraceTable.cfg")
     _sdd_family(ctx, "c04", "TraceSdd_C04.cfg", nq=10)
+    # wide decision nodes: 6 variables under the left child, 3 under the right; conjunction of two fine partitions (a node of ~50
+    # elements after compression), the same result along two routes (9 variables: TLC works on sets of 512 assignments)
+    record_and_validate(ctx, [("sdd_wide_%d" % i, ["record", "sdd", "--mode", "wide", "--seed", ctx.seed * 1000 + i, "--segments", 1 if ctx.quick else 2,
+                                                   "--nmax", 9]) for i in range(1 if ctx.quick else 6)], "TraceSdd", "TraceSdd_C04.cfg")
 
 
 def C05(ctx):
